@@ -5,7 +5,9 @@ go 1.24.0
 require (
 	github.com/Masterminds/semver/v3 v3.3.0
 	github.com/evanphx/json-patch v5.9.11+incompatible
+	github.com/google/gnostic-models v0.6.9
 	golang.org/x/crypto v0.37.0
+	google.golang.org/protobuf v1.36.4
 	helm.sh/helm/v4 v4.0.0
 	k8s.io/api v0.32.3
 	k8s.io/apimachinery v0.32.3
@@ -46,7 +48,6 @@ require (
 	github.com/gogo/protobuf v1.3.2 // indirect
 	github.com/golang/protobuf v1.5.4 // indirect
 	github.com/google/btree v1.1.3 // indirect
-	github.com/google/gnostic-models v0.6.9 // indirect
 	github.com/google/go-cmp v0.6.0 // indirect
 	github.com/google/gofuzz v1.2.0 // indirect
 	github.com/google/shlex v0.0.0-20191202100458-e7afc7fbc510 // indirect
@@ -100,7 +101,6 @@ require (
 	golang.org/x/term v0.31.0 // indirect
 	golang.org/x/text v0.24.0 // indirect
 	golang.org/x/time v0.9.0 // indirect
-	google.golang.org/protobuf v1.36.4 // indirect
 	gopkg.in/evanphx/json-patch.v4 v4.12.0 // indirect
 	gopkg.in/inf.v0 v0.9.1 // indirect
 	gopkg.in/yaml.v3 v3.0.1 // indirect
